@@ -24,7 +24,7 @@ CONF = {
                              ('struct-deep', ('H_E', 'M_E1', 'T_E1', 'O_E', 9, 5), 60000, (20000, 50)),
                              ('struct-macro-ovr', ('H_E', 'M_E2', 'T_E1', 'O_E0', 3, 4), 40000),
                              ('struct-one-ovr', ('H_E1', 'M_E1', 'T_E1', 'O_E0', 4, 4), 30000),
-                             ('loops-sub', ('H_E', 'M_E0', 'NoGates', 'O_LS', 8, 4), 60000)]),
+                             ('loops-sub', ('H_E', 'M_E0', 'NoGates', 'O_LS', 7, 4), 16000)]),
     'gates': dict(quick=[('gates-wide', ('H_G', 'M_G', 'T_G', 'O_G', 3, 3, 'NoGates'), 3000),
                          ('gates-deep', ('H_G', 'M_E0', 'T_G2', 'O_G2', 5, 2, 'NoGates'), 2000),
                          ('gates-sim', ('H_G', 'M_G', 'T_G', 'O_G', 9, 4, 'NoGates'), 2500, (700, 40)),
@@ -46,7 +46,9 @@ CONF = {
 CONF['views'] = dict(quick=[('gates-deep', ('H_G', 'M_E0', 'T_G2', 'O_G2', 4, 2, 'NoGates'), 6000), ('struct', ('H_E', 'M_E0', 'T_E', 'O_E', 3, 3), 6000),
                             ('one-qubit', ('H_G1', 'M_E0', 'T_G1', 'O_G2', 3, 2, 'NoGates'), 800),
                             ('four-qubits', ('H_G4', 'M_E0', 'T_G4', 'O_G2', 3, 2, 'NoGates'), 2000)],
-                     thorough=CONF['gates']['thorough'] + CONF['struct']['thorough'])
+                     # (the configurations added to `struct` for C08 / C12 in rounds 4-6 say nothing new about result views)
+                     thorough=CONF['gates']['thorough'] + [e for e in CONF['struct']['thorough']
+                                                           if e[0] not in ('struct-macro-ovr', 'struct-one-ovr', 'loops-sub')])
 
 PROPS = {
     'C12': dict(conf=['struct'], owned={'accept_iff', 'rule_named', 'n_subcircuits', 'discover_trace'}, sites=('run', 'run_shared'),
